@@ -120,7 +120,7 @@ def random_cut(rng):
 class Scenario:
     """A capture with N TLS connections + ground truth."""
 
-    def __init__(self, rng, combos, v6=None, cut="random", sports=None, app=None, shapes=None, resched=0.3):
+    def __init__(self, rng, combos, v6=None, cut="random", sports=None, app=None, shapes=None, resched=0.3, isn=None):
         self.rng = rng
         self.parts = []
         for i, (code, version, etm) in enumerate(combos):
@@ -128,6 +128,9 @@ class Scenario:
             shape["etm"] = etm
             sc = gen_tls.Script(version, code, app[i] if app else random_app(rng), rng, **shape)
             ep = random_endpoints(rng, i, v6=v6, sport=(sports[i] if sports else 443))
+            if isn == "wrap":
+                # the sequence numbers of both directions pass 2^32 early in the connection (inside the handshake or the first records)
+                ep["cisn"], ep["sisn"] = 2 ** 32 - rng.randrange(1, 900), 2 ** 32 - rng.randrange(1, 2500)
             conn = gen_tls.TcpConn(**ep)
             conn.want_reschedule = rng.random() < resched
             c = random_cut(rng) if cut == "random" else cut
